@@ -115,7 +115,18 @@ func Print(v reflect.Value) string {
 		if m.FieldByName("keys").Len() == 0 {
 			return "()"
 		}
-		return "(" + Print(m.FieldByName("keys")) + "|" + Print(m.FieldByName("values")) + ")"
+		return "(" + printList(m.FieldByName("keys")) + "|" + printList(m.FieldByName("values")) + ")"
+	case "tlb.Hashmap":
+		if v.FieldByName("keys").Len() == 0 {
+			return "()"
+		}
+		return "(" + printList(v.FieldByName("keys")) + "|" + printList(v.FieldByName("values")) + ")"
+	case "tlb.HashmapAug": // the tree of extras is not observable (no accessor): keys and values only
+		return "(" + printList(v.FieldByName("keys")) + "|" + printList(v.FieldByName("values")) + ")"
+	case "tlb.HashmapAugE":
+		m := v.FieldByName("m")
+		return "(" + printList(m.FieldByName("keys")) + "|" + printList(m.FieldByName("values")) + "|" +
+			Print(v.FieldByName("extra")) + ")"
 	}
 	switch t.Kind() {
 	case reflect.Uint8, reflect.Uint16, reflect.Uint32, reflect.Uint64, reflect.Uint:
@@ -170,6 +181,16 @@ func Print(v reflect.Value) string {
 		return "(" + strings.Join(parts, "|") + ")"
 	}
 	return ":?" + t.Kind().String()
+}
+
+// printList dumps a slice element by element (also for byte-kinded element types, which Print would dump as `x…`)
+func printList(v reflect.Value) string {
+	v = access(v)
+	parts := make([]string, v.Len())
+	for i := range parts {
+		parts[i] = Print(v.Index(i))
+	}
+	return "(" + strings.Join(parts, "|") + ")"
 }
 
 // PrintNamed dumps a value like Print, except that the fields of the structs the reflection codec walks (descriptor
@@ -380,6 +401,40 @@ func fill(e *sexp, v reflect.Value) error {
 			return err
 		}
 		return fill(e.list[1], m.FieldByName("values"))
+	case "tlb.Hashmap":
+		if !e.isLst {
+			return bad()
+		}
+		if len(e.list) == 0 {
+			return nil
+		}
+		if len(e.list) != 2 {
+			return bad()
+		}
+		if err := fill(e.list[0], v.FieldByName("keys")); err != nil {
+			return err
+		}
+		return fill(e.list[1], v.FieldByName("values"))
+	case "tlb.HashmapAug", "tlb.HashmapAugE":
+		m := v
+		n := 2
+		if baseName(t) == "tlb.HashmapAugE" {
+			m = v.FieldByName("m")
+			n = 3
+		}
+		if !e.isLst || len(e.list) != n {
+			return bad()
+		}
+		if err := fill(e.list[0], m.FieldByName("keys")); err != nil {
+			return err
+		}
+		if err := fill(e.list[1], m.FieldByName("values")); err != nil {
+			return err
+		}
+		if n == 3 {
+			return fill(e.list[2], v.FieldByName("extra"))
+		}
+		return nil
 	}
 	switch t.Kind() {
 	case reflect.Uint8, reflect.Uint16, reflect.Uint32, reflect.Uint64, reflect.Uint:
@@ -426,8 +481,8 @@ func fill(e *sexp, v reflect.Value) error {
 		v.Set(p)
 		return nil
 	case reflect.Array, reflect.Slice:
-		if t.Elem().Kind() == reflect.Uint8 {
-			if e.isLst || !strings.HasPrefix(e.atom, "x") {
+		if t.Elem().Kind() == reflect.Uint8 && !e.isLst {
+			if !strings.HasPrefix(e.atom, "x") {
 				return bad()
 			}
 			b, err := hex.DecodeString(e.atom[1:])
